@@ -199,6 +199,10 @@ def handle_conditional(v, fac, sf, F):
         assert () not in fac2
 
         z = as_ufl(0.0)
+        if set(fac1.keys()) != set(fac2.keys()):
+            # The zero branch of conditional(c, fi, 0) must be a node of F,
+            # dependencies are resolved through F.e2i
+            graph_insert(F, z)
 
         # In general, can decompose like this:
         #    conditional(c, sum_i fi*ui, sum_j fj*uj) -> sum_i conditional(c, fi, 0)*ui
